@@ -251,8 +251,10 @@ class C09:
         # names bound to `<cursor>.rowcount`
         rc_names = {"rowcount"}
         for n in self.ctx.own_nodes(f):
-            if isinstance(n, ast.Assign) and isinstance(n.value, ast.Attribute) and n.value.attr == "rowcount" and isinstance(n.targets[0], ast.Name):
-                rc_names.add(n.targets[0].id)
+            if isinstance(n, (ast.Assign, ast.AnnAssign)) and isinstance(n.value, ast.Attribute) and n.value.attr == "rowcount":
+                tg = n.targets[0] if isinstance(n, ast.Assign) else n.target
+                if isinstance(tg, ast.Name):
+                    rc_names.add(tg.id)
         for (txt, pol) in facts:
             try:
                 e = ast.parse(txt, mode="eval").body
